@@ -32,6 +32,14 @@ func c11Gen(seed uint64, run int, tier string) *Case {
 	c.Cfg["cutwhen"] = int64(r.Pick(0, 1, 1, 2)) // 0: at a drawn step, 1: at first quiescence (requests parked), 2: after everything was answered
 	c.Cfg["cutstep"] = int64(r.Intn(700))
 	c.Stratum = []string{"cut-at-step", "cut-with-requests-parked", "cut-when-idle"}[c.Cfg["cutwhen"]]
+	if run%12 == 10 {
+		c.Stratum = "tversion-then-disconnect"
+		c.Cfg["midversion"] = 1
+		c.Cfg["nreq"] = int64(r.Pick(1, 2, 4, 8))
+		c.Cfg["holdpct"] = int64(r.Pick(0, 30, 70))
+		c.Cfg["sameseg"] = int64(r.Intn(2))
+		return c
+	}
 	if run%4 == 3 {
 		// the Unix file server: every file it opened for the connection must be closed again
 		c.Stratum = "ufs-open-files"
@@ -142,7 +150,9 @@ func c11Ufs(x *Ctx) {
 			walks = append(walks, &Msg{Type: Twalk, Tag: next(), Fid: 0, Newfid: uint32(100 + i), Wname: []string{"d"}})
 			creates = append(creates, &Msg{Type: Tcreate, Tag: next(), Fid: uint32(100 + i), Name: fmt.Sprintf("new%d", i), Perm: 0o644, Mode: 1})
 		}
-		_ = stage(walks) && stage(opens) && stage(append(reads, creates...))
+		// the directory is then listed again from its start, twice, through the same fid
+		again := func() []*Msg { return []*Msg{{Type: Tread, Tag: next(), Fid: 90, Offset: 0, Count: 4000}} }
+		_ = stage(walks) && stage(opens) && stage(append(reads, creates...)) && stage(again()) && stage(again())
 	})
 	quiet := false
 	rt.Go(rt.SiteSpawn, func() {
@@ -208,6 +218,10 @@ func c11Ufs(x *Ctx) {
 }
 
 func c11Exec(x *Ctx) {
+	if x.C.cfg("midversion") != 0 {
+		c11Version(x)
+		return
+	}
 	if x.C.cfg("ufs") != 0 {
 		c11Ufs(x)
 		return
@@ -379,4 +393,137 @@ func c11Exec(x *Ctx) {
 	}
 	w.countProbes()
 	_ = fmt.Sprint
+}
+
+// c11Version: a Tversion arrives while requests of the victim are outstanding (not yet started, or parked in the
+// implementation); then the victim disconnects. Everything it held is released all the same.
+func c11Version(x *Ctx) {
+	c := x.C
+	ms := uint32(1024)
+	fs := NewScriptFS(x)
+	holdTag := make([]bool, 1<<16)
+	fs.PlanFor = func(inv *Inv) *Plan {
+		p := &Plan{NWqid: -1, NData: -1, QType: qDir}
+		if holdTag[inv.Tag] {
+			p.Mode = PHold
+		}
+		return p
+	}
+	sys := NewSrvSys(x, fs.OpsValue(false, false), fs, ms, true, int(c.cfg("maxpend")), int(c.cfg("debug")))
+	victim := sys.AddConn(0, int(c.cfg("seg")))
+	by := sys.AddConn(0, int(c.cfg("seg")))
+	r := NewRand(c.Seed ^ 0x11b)
+	n := int(c.cfg("nreq"))
+	setup, sentAll := false, false
+	rt.Go(rt.SiteSpawn, func() {
+		rt.SetName("victim")
+		for _, sc := range []*SConn{victim, by} {
+			p := sc.Peer
+			if rr := p.Call(&Msg{Type: Tversion, Tag: NOTAG, Msize: ms, Version: "9P2000.u"}); rr == nil || rr.M == nil || rr.M.Type != Rversion {
+				return
+			}
+			for _, m := range []*Msg{{Type: Tattach, Tag: 1, Fid: 0, Afid: NOFID, Uname: "u1", Nuname: 1}, {Type: Twalk, Tag: 2, Fid: 0, Newfid: 1, Wname: []string{"a"}}} {
+				if rr := p.Call(m); rr == nil || rr.M == nil || rr.M.Type == Rerror {
+					return
+				}
+			}
+		}
+		setup = true
+		p := victim.Peer
+		var ms1 []*Msg
+		for i := 0; i < n; i++ {
+			tag := uint16(10 + i)
+			holdTag[tag] = r.Pct(int(c.cfg("holdpct")))
+			switch r.Intn(3) {
+			case 0:
+				ms1 = append(ms1, &Msg{Type: Tstat, Tag: tag, Fid: uint32(r.Intn(2))})
+			case 1:
+				ms1 = append(ms1, &Msg{Type: Twalk, Tag: tag, Fid: 0, Newfid: uint32(20 + i), Wname: []string{"b"}})
+			default:
+				ms1 = append(ms1, &Msg{Type: Tread, Tag: tag, Fid: 1, Offset: 0, Count: 10})
+			}
+		}
+		ms1 = append(ms1, &Msg{Type: Tversion, Tag: NOTAG, Msize: ms, Version: "9P2000.u"})
+		var vs *Sent
+		if c.cfg("sameseg") != 0 {
+			ss := p.Write(ms1...)
+			vs = ss[len(ss)-1]
+		} else {
+			for _, m := range ms1 {
+				vs = p.Write(m)[0]
+			}
+		}
+		rt.YieldUntil(rt.SiteActor, func() bool { return vs.Reply != nil || p.EOF })
+		sentAll = true
+		x.Fault("cut-eof")
+		victim.Clnt.Close()
+	})
+	for {
+		if !x.Run() {
+			return
+		}
+		held := fs.HeldInvs()
+		if len(held) == 0 {
+			break
+		}
+		held[x.S.Choose(len(held))].Released = true
+	}
+	if !setup || !sentAll {
+		if len(x.Res.Viol) == 0 {
+			x.Violate("setup", "the session did not get as far as the disconnect")
+		}
+		return
+	}
+	x.Probe("tversion-with-requests-outstanding-before-the-disconnect")
+	// the bystander is served
+	var after *Recvd
+	rt.Go(rt.SiteSpawn, func() {
+		rt.SetName("bystander-after")
+		after = by.Peer.Call(&Msg{Type: Tstat, Tag: 3500, Fid: 1})
+	})
+	if !x.Run() {
+		return
+	}
+	if after == nil || after.M == nil || after.M.Type != Rstat {
+		x.Violate("d4-bystander", "the bystander connection is not served after the victim disconnected: Tstat answered %v", after)
+	}
+	nclosed := 0
+	shown := map[*go9p.SrvFid]uint32{}
+	var order []*go9p.SrvFid
+	destroyed := map[*go9p.SrvFid]int{}
+	for _, i := range fs.Log {
+		switch {
+		case i.Op == "connclosed" && i.Conn == 0:
+			nclosed++
+		case i.Op == "connclosed":
+			x.Violate("d1-wrong-conn-closed", "ConnClosed reported for connection %d, which never disconnected", i.Conn)
+		case i.Op == "fiddestroy":
+			destroyed[i.FidP]++
+		case i.Conn == 0 && i.Req != nil:
+			for _, fp := range []*go9p.SrvFid{i.FidP, i.NewfidP} {
+				if fp != nil {
+					if _, ok := shown[fp]; !ok {
+						order = append(order, fp)
+					}
+					shown[fp] = i.Fid
+				}
+			}
+		}
+	}
+	if nclosed != 1 {
+		x.Violate("d1-connclosed", "ConnClosed reported %d times for the disconnected connection", nclosed)
+	}
+	for _, fp := range order {
+		switch k := destroyed[fp]; {
+		case k == 0:
+			x.Violate("d2-fid-not-destroyed", "a fid of the disconnected connection (requests were outstanding at a Tversion before it left) was shown to the implementation but its destruction was never reported")
+		case k > 1:
+			x.Violate("d2-fid-destroyed-twice", "a fid of the disconnected connection was reported destroyed %d times", k)
+		}
+	}
+	for _, g := range x.S.Goroutines() {
+		if g.DescendsFrom(victim.Host) && !g.Done() {
+			x.Violate("d3-goroutine-left", "goroutine %s serving the disconnected connection never ended: %s", g.ID, x.S.Describe(g))
+		}
+	}
 }
